@@ -8,6 +8,7 @@ package main
 import (
 	"context"
 	"encoding/hex"
+	"encoding/json"
 	"fmt"
 	"io"
 	"math/big"
@@ -174,7 +175,7 @@ func newC10World(n int, withShare bool) *c10world {
 			}
 			nd.ec = &cntECDSA{inner: keyshare.NewECDSAKeyshareStore(ep), c: &lockCounter{}}
 			nd.fr = &cntFrost{inner: keyshare.NewFrostKeyshareStore(fp), c: &lockCounter{}}
-			nd.coord = tss.NewCoordinator(h, nd.ledger, elector.NewCoordinatorElectorFactory(h, relayer.BullyConfig{}))
+			nd.coord = tss.NewCoordinator(h, nd.ledger, elector.NewCoordinatorElectorFactory(h, relayer.BullyConfig{ElectionWaitTime: 3 * time.Millisecond, BullyWaitTime: 30 * time.Millisecond}))
 			nd.coord.CoordinatorTimeout, nd.coord.TssTimeout, nd.coord.InitiatePeriod = time.Hour, time.Hour, time.Hour
 		}
 		w.nodes = append(w.nodes, nd)
@@ -341,6 +342,7 @@ func (w *c10world) cell(kind, oc string) string {
 	waitUntil(2*time.Second, func() bool { return nd.ledger.inner.VerifLiveSubscriptions(sid) == 0 })
 	nd.coord.CoordinatorTimeout, nd.coord.TssTimeout, nd.coord.InitiatePeriod = time.Hour, time.Hour, time.Hour
 	live0 := nd.ledger.inner.VerifLiveSubscriptions(sid)
+	sub0, _, _ := nd.ledger.counts(sid)
 	bc0 := nd.ledger.bcasts(sid, c10msgType(kind))
 	threshold := 1
 	if oc == "rejected" && strings.HasSuffix(kind, "keygen") {
@@ -374,6 +376,35 @@ func (w *c10world) cell(kind, oc string) string {
 	go func() { ret <- nd.coord.Execute(ctx, []tss.TssProcess{proc}, make(chan interface{}, 4)) }()
 	ghost := w.nodes[1].ledger
 	subscribed := func() bool { return nd.ledger.inner.VerifLiveSubscriptions(sid) >= live0+3 }
+	signing := strings.HasSuffix(kind, "signing")
+	// running: the process has subscribed to its own message type and has handed over its first-round messages
+	running := func() bool {
+		ran := waitUntil(c9wait, func() bool { return len(nd.ledger.inner.GetSubscribers(sid, c10msgType(kind))) > 0 })
+		if ran && !strings.HasPrefix(kind, "f") {
+			// (FROST sends nothing before STARTUP_PAUSE - 10 s, not interruptible - has elapsed, and Run returns only
+			// after it.) Party.Start must have handed over its first-round messages before the session is ended: a
+			// cancellation racing with that hand-over is the recorded finding C10-run-stuck-on-outchn. Wait for the first
+			// protocol broadcast and then for 600 ms without another one.
+			mt := c10msgType(kind)
+			first := c9wait
+			if kind == "ekeygen" {
+				first = 150 * time.Second // safe-prime generation inside Party.Start
+			}
+			ran = waitUntil(first, func() bool { return nd.ledger.bcasts(sid, mt) > bc0 })
+			for last, since := nd.ledger.bcasts(sid, mt), time.Now(); time.Since(since) < 600*time.Millisecond; {
+				time.Sleep(5 * time.Millisecond)
+				if n := nd.ledger.bcasts(sid, mt); n != last {
+					last, since = n, time.Now()
+				}
+			}
+		}
+		if ran {
+			cnt.mu.Lock()
+			cnt.runProbe = itoa(cnt.held)
+			cnt.mu.Unlock()
+		}
+		return ran
+	}
 	flow := true
 	switch oc {
 	case "cancel":
@@ -387,35 +418,28 @@ func (w *c10world) cell(kind, oc string) string {
 		flow = waitUntil(c9wait, subscribed)
 		b, _ := message.MarshalStartMessage(w.startParams(kind, sid))
 		_ = ghost.inner.Broadcast(peer.IDSlice{w.ids[0]}, b, comm.TssStartMsg, sid)
-		// the protocol is running once the process has subscribed to its own message type
-		ran := waitUntil(c9wait, func() bool { return len(nd.ledger.inner.GetSubscribers(sid, c10msgType(kind))) > 0 })
-		if ran && strings.HasPrefix(kind, "f") {
-			// FROST: nothing is sent before STARTUP_PAUSE (10 s, not interruptible) has elapsed, and Run returns only after it
-			cnt.mu.Lock()
-			cnt.runProbe = itoa(cnt.held)
-			cnt.mu.Unlock()
-		} else if ran {
-			// Party.Start / the FROST handler must have handed over its first-round messages before the session is
-			// failed (a cancellation racing with that hand-over is a separate, recorded finding): wait for the first
-			// protocol broadcast and then for 600 ms without another one
-			mt := c10msgType(kind)
-			first := c9wait
-			if kind == "ekeygen" {
-				first = 150 * time.Second // safe-prime generation inside Party.Start
-			}
-			ran = waitUntil(first, func() bool { return nd.ledger.bcasts(sid, mt) > bc0 })
-			for last, since := nd.ledger.bcasts(sid, mt), time.Now(); time.Since(since) < 600*time.Millisecond; {
-				time.Sleep(5 * time.Millisecond)
-				if n := nd.ledger.bcasts(sid, mt); n != last {
-					last, since = n, time.Now()
-				}
-			}
-			cnt.mu.Lock()
-			cnt.runProbe = itoa(cnt.held)
-			cnt.mu.Unlock()
-		}
-		flow = flow && ran
+		flow = running() && flow
 		_ = ghost.inner.Broadcast(peer.IDSlice{w.ids[0]}, []byte{}, comm.TssFailMsg, sid)
+	case "silent":
+		if signing {
+			// retryable: the silent coordinator is excluded, a bully election (nobody else takes part) makes this relayer
+			// the coordinator, it asks who is ready - and nobody is. The caller gives up.
+			flow = waitUntil(c9wait, func() bool { return len(nd.ledger.inner.GetSubscribers(sid, comm.TssReadyMsg)) > 0 })
+			cancel()
+		}
+	case "retried":
+		// the coordinator starts signing with a subset that leaves this relayer out (Run returns SubsetError), the
+		// relayer keeps waiting for a start message from anybody, is started again with a subset that includes it,
+		// and the caller ends the session while that second run is in progress
+		flow = waitUntil(c9wait, subscribed)
+		out, _ := json.Marshal([]peer.ID{w.ids[1], w.ids[2]})
+		b, _ := message.MarshalStartMessage(out)
+		_ = ghost.inner.Broadcast(peer.IDSlice{w.ids[0]}, b, comm.TssStartMsg, sid)
+		flow = flow && waitUntil(c9wait, func() bool { n, _, _ := nd.ledger.counts(sid); return n-sub0 >= 6 })
+		b, _ = message.MarshalStartMessage(w.startParams(kind, sid))
+		_ = ghost.inner.Broadcast(peer.IDSlice{w.ids[0]}, b, comm.TssStartMsg, sid)
+		flow = running() && flow
+		cancel()
 	}
 	r := "hang"
 	select {
@@ -670,10 +694,17 @@ func genC10(g *G) {
 	for _, k := range []string{"fkeygen", "fresharing", "fsigning"} {
 		c10prefetch("cell", c10cellRun, k, "failed")
 	}
+	c10prefetch("cell", c10cellRun, "fsigning", "retried")
 	for _, k := range c10kinds {
-		for _, oc := range []string{"refused", "silent", "gto", "cancel", "rejected", "failed", "noshare"} {
+		for _, oc := range []string{"refused", "silent", "gto", "cancel", "rejected", "failed", "retried", "noshare"} {
 			if oc == "failed" && k == "ekeygen" {
 				continue // safe-prime generation inside Party.Start (tens of seconds): thorough tier only, emitted last
+			}
+			if oc == "retried" && !strings.HasSuffix(k, "signing") {
+				continue // only signing is retryable
+			}
+			if oc == "retried" && k == "fsigning" {
+				continue // 10 s start-up pause: started ahead, emitted with the other slow cells
 			}
 			if oc == "noshare" && !strings.HasSuffix(k, "signing") {
 				continue // only the signing constructors need an existing share
@@ -694,12 +725,16 @@ func genC10(g *G) {
 			if g.Intn(5) == 0 && strings.HasPrefix(k, "e") && k != "ekeygen" {
 				oc = "failed"
 			}
+			if g.Intn(5) == 0 && k == "esigning" {
+				oc = "retried"
+			}
 			xs = append(xs, k+":"+oc)
 		}
 		g.Emit("seq", strings.Join(xs, ","))
 	}
 	g.Emit("stuck", "eresharing")
 	g.Emit("stuck", "esigning")
+	g.Emit("cell", "fsigning", "retried")
 	for _, k := range fulls {
 		g.Emit("full", k)
 	}
